@@ -857,26 +857,38 @@ compFileFront(EmitInfo finfo, Stab stab, FILE *fin, int *plno)
 	ab = compPhaseAbNorm (finfo, ab, false);
 	ab = compPhaseMacEx  (finfo, ab);
 	if (comsgErrorCount()) {
-		if (fintMode == FINT_LOOP) scopeBindSkipStep(stab);
+		if (fintMode == FINT_LOOP) {
+			scopeBindSkipStep(stab);
+			macexSetUndoState();
+		}
 		return ab;
 	}
 
 	ab = compPhaseAbNorm (finfo, ab, true);
 	ab = compPhaseAbCheck(finfo, ab); /* creates the .ax file */
 	if (!compIsMoreAfterSyntax(finfo)) {
-		if (fintMode == FINT_LOOP) scopeBindSkipStep(stab);
+		if (fintMode == FINT_LOOP) {
+			scopeBindSkipStep(stab);
+			macexSetUndoState();
+		}
 		return ab;
 	}
 
 	compPhaseScoBind(finfo, stab, ab);
 	if (comsgErrorCount())	{
-		if (fintMode == FINT_LOOP) scoSetUndoState();
+		if (fintMode == FINT_LOOP) {
+			scoSetUndoState();
+			macexSetUndoState();
+		}
 		return ab;
 	}
 
 	compPhaseTInfer (finfo, stab, ab);
 	if (comsgErrorCount())	{
-		if (fintMode == FINT_LOOP) scoSetUndoState();
+		if (fintMode == FINT_LOOP) {
+			scoSetUndoState();
+			macexSetUndoState();
+		}
 		return ab;
 	}
 
